@@ -815,6 +815,42 @@ func genSetNearEqualC11(op string, maxLen int) (cases []string) {
 	return cases
 }
 
+// genSetBigC11: grow-then-shrink histories on sets of more than a thousand elements (storage
+// that reallocates, shrinks or switches representation at a size threshold): built by the
+// constructor or by Adds, emptied from the front, the back or the middle, with Has right after
+// every Delete and a full observation at the quarter marks.
+func genSetBigC11(op string, n int, byAdd bool, from string) string {
+	var ops []string
+	if byAdd {
+		ops = append(ops, "0n")
+		for i := 0; i < n; i++ {
+			ops = append(ops, fmt.Sprintf("0a%d", i))
+		}
+	} else {
+		vs := make([]string, n)
+		for i := range vs {
+			vs[i] = strconv.Itoa(i)
+		}
+		ops = append(ops, "0n"+strings.Join(vs, ";"))
+	}
+	ops = append(ops, "0l", "0k1")
+	for j := 0; j < n-1; j++ {
+		v := j
+		switch from {
+		case "back":
+			v = n - 1 - j
+		case "middle":
+			v = (n/2 + j) % n
+		}
+		ops = append(ops, fmt.Sprintf("0d%d", v), fmt.Sprintf("0h%d", v))
+		if j%max(n/4, 1) == n/4-1 || j == n-2 {
+			ops = append(ops, "0l", "0v", fmt.Sprintf("0h%d", (v+1)%n), "0e1")
+		}
+	}
+	ops = append(ops, "1l")
+	return op + " " + joinOpsC11(ops)
+}
+
 func genC11(rng *rand.Rand, tier string) (cases []string) {
 	n := 8000
 	if tier == "thorough" {
@@ -827,6 +863,19 @@ func genC11(rng *rand.Rand, tier string) (cases []string) {
 	cases = append(cases, genSetBoundaryC11("C11.sssf", []string{"nan", "-inf", "2", "4"})...)
 	for _, op := range []string{"C11.sss", "C11.ms", "C11.sssf"} {
 		cases = append(cases, genSetNearEqualC11(op, 9)...)
+	}
+	cases = append(cases, genSetBigC11("C11.sss", 1100, false, "front"), genSetBigC11("C11.sss", 1030, true, "back"), genSetBigC11("C11.ms", 1100, true, "front"))
+	if v, ok := dictInt(rng, 65, 6000); ok && dictNew() {
+		// a size just above an integer constant that is new in the source (a threshold, if it is one)
+		cases = append(cases, genSetBigC11("C11.sss", int(v)+40, false, "middle"))
+	}
+	if tier == "thorough" {
+		for _, sz := range []int{1023, 1024, 1025, 2048, 3000, 4097} {
+			for _, from := range []string{"front", "back", "middle"} {
+				cases = append(cases, genSetBigC11("C11.sss", sz, from == "back", from))
+			}
+			cases = append(cases, genSetBigC11("C11.ms", sz, true, "front"))
+		}
 	}
 	if tier == "thorough" {
 		cases = append(cases, genRingExhaustiveC11(6)...)
